@@ -758,6 +758,13 @@ func validateStringMap(field string, nodes []yamlMap, offsetLine int, lines diag
 				Err:  fmt.Errorf("%s %s value must be a %s, got %s instead", field, entry.key.Value, describeTag(strTag), describeTag(entry.val.ShortTag())),
 			}, lines
 		}
+		if val := entry.val; val.Kind != yaml.ScalarNode && (val.Alias == nil || val.Alias.Kind != yaml.ScalarNode) {
+			// A list or a mapping explicitly tagged as a string: `foo: !!str [a]`.
+			return false, ParseError{
+				Line: entry.val.Line + offsetLine,
+				Err:  fmt.Errorf("%s %s value must be a %s", field, entry.key.Value, describeTag(strTag)),
+			}, lines
+		}
 		if _, ok := names[entry.key.Value]; ok {
 			return false, ParseError{
 				Line: entry.key.Line,
